@@ -143,30 +143,49 @@ Lemma name_bytes_order_differs : exists a b, name_cmp a b = Lt /\ bytes_cmp (nam
 Proof. exists [mkc 8 [1]; mkc 8 [1]], [mkc 8 [2]]. split; vm_compute; reflexivity. Qed.
 
 (* ---------- hash input ---------- *)
-(* HashInto feeds the 8-byte type and then the raw value: neither the value length nor a component boundary enters
-   the hash input, so different names can feed identical bytes to the hasher. *)
-Lemma hash_input_not_injective : exists a b : name,
-  a <> b /\ Forall comp_wf a /\ Forall comp_wf b /\ name_hash_input a = name_hash_input b.
-Proof.
-  exists [mkc 8 [0;0;0;0;0;0;0;8]], [mkc 8 []; mkc 8 []].
-  split; [discriminate|]. split; [repeat constructor; vm_compute; reflexivity|].
-  split; [repeat constructor; vm_compute; reflexivity|]. vm_compute. reflexivity.
-Qed.
-
-(* what does hold: one component's hash input determines the component *)
 Lemma app_eq_len {A} (a : list A) : forall a' b b', length a = length a' -> a ++ b = a' ++ b' -> a = a' /\ b = b'.
 Proof.
   induction a as [|x a IH]; intros [|y a'] b b' Hl H; try discriminate; [auto|].
   cbn [app] in H. inversion H; subst. destruct (IH a' b b') as [-> ->]; [cbn in Hl; lia|assumption|auto].
 Qed.
 
-Lemma comp_hash_input_inj c d : ctyp c < two64 -> ctyp d < two64 ->
-  comp_hash_input c = comp_hash_input d -> c = d.
+Lemma be8_inj x y : x < two64 -> y < two64 -> be 8 x = be 8 y -> x = y.
 Proof.
-  intros Hc Hd. unfold comp_hash_input. intros H.
-  apply app_eq_len in H as [H1 H2]; [|rewrite !be_length; reflexivity].
-  assert (Ht : ctyp c = ctyp d).
-  { rewrite <- (be_val_be 8 (ctyp c)), <- (be_val_be 8 (ctyp d)); [congruence| |];
-      change (256 ^ N.of_nat 8) with 18446744073709551616; unfold two64 in *; lia. }
-  destruct c, d; cbn in *; congruence.
+  intros Hx Hy H. rewrite <- (be_val_be 8 x), <- (be_val_be 8 y); [congruence| |];
+    change (256 ^ N.of_nat 8) with 18446744073709551616; unfold two64 in *; lia.
+Qed.
+
+(* HashInto feeds type, value length, value: the input of a component is self-delimiting ... *)
+Lemma comp_hash_input_prefix_free c d r r' : comp_wf c -> comp_wf d ->
+  comp_hash_input c ++ r = comp_hash_input d ++ r' -> c = d /\ r = r'.
+Proof.
+  intros [Hc1 Hc2] [Hd1 Hd2]. unfold comp_hash_input. rewrite <- !app_assoc. intros H.
+  apply app_eq_len in H as [H1 H]; [|rewrite !be_length; reflexivity].
+  apply app_eq_len in H as [H2 H]; [|rewrite !be_length; reflexivity].
+  apply be8_inj in H1; [|assumption|assumption]. apply be8_inj in H2; [|assumption|assumption].
+  apply Nat2N.inj in H2. apply app_eq_len in H as [H3 H4]; [|exact H2].
+  split; [destruct c, d; cbn in *; congruence|exact H4].
+Qed.
+
+(* ... so different well-formed names never feed the same bytes to the hasher *)
+Theorem name_hash_input_inj a : forall b, Forall comp_wf a -> Forall comp_wf b ->
+  name_hash_input a = name_hash_input b -> a = b.
+Proof.
+  unfold name_hash_input. induction a as [|c a IH]; intros [|d b] Ha Hb H; cbn [map concat] in H.
+  - reflexivity.
+  - exfalso. unfold comp_hash_input in H. cbn [be app] in H. discriminate.
+  - exfalso. unfold comp_hash_input in H. cbn [be app] in H. discriminate.
+  - inversion Ha; subst. inversion Hb; subst.
+    apply comp_hash_input_prefix_free in H as [-> H]; [|assumption|assumption].
+    f_equal. apply IH; assumption.
+Qed.
+
+(* Without the length (the code before the fix) component boundaries were not delimited: two different well-formed
+   names fed identical bytes, hence had the same 64-bit hash whatever the hash function. *)
+Lemma hash_input_nolen_not_injective : exists a b : name,
+  a <> b /\ Forall comp_wf a /\ Forall comp_wf b /\ name_hash_input_nolen a = name_hash_input_nolen b.
+Proof.
+  exists [mkc 8 [0;0;0;0;0;0;0;8]], [mkc 8 []; mkc 8 []].
+  split; [discriminate|]. split; [repeat constructor; vm_compute; reflexivity|].
+  split; [repeat constructor; vm_compute; reflexivity|]. vm_compute. reflexivity.
 Qed.
